@@ -242,8 +242,9 @@ theorem deliver_gext (h : RecG cfg rec) (ty v root obs d : Nat) (acc : St R × L
     GExt cfg acc.1.c (deliver cfg rec ty v root obs d acc r).1.c := by
   obtain ⟨s, claimed⟩ := acc
   unfold deliver
-  cases ho : r.once <;> cases hf : r.filt <;>
-    simp only [Bool.false_eq_true, ↓reduceIte, Bool.false_and, Bool.true_and] <;> repeat' split
+  by_cases h0 : root = 0 <;> cases hfc : r.filtCancels <;> cases ho : r.once <;> cases hf : r.filt <;>
+    simp only [cancelRoot, h0, Bool.false_eq_true, ↓reduceIte, Bool.false_and, Bool.true_and, Bool.and_true,
+      Bool.and_false, Option.isSome_none, Option.isSome_some] <;> repeat' split
   all_goals first
     | exact GExt.of_eq rfl
     | (refine GExt.trans ?_ (callHandler_gext h _ _ _ _ _ _ _ _); exact GExt.of_eq rfl)
